@@ -1291,6 +1291,35 @@ fn oracle(
     Ok(())
 }
 
+/// read `a` back, convert it with `write::Dwarf::convert`, writing every unit immediately
+/// (`ConvertUnit::write`: `Unit::write` now, cross-unit fix-ups and string tables at the final
+/// `Dwarf::write`)
+fn incremental(a: &Sections<EndianVec<RunTimeEndian>>, endian: RunTimeEndian) -> Result<Sections<EndianVec<RunTimeEndian>>, String> {
+    let rd: read::Dwarf<R> = read::Dwarf::load(|id| -> Result<R, ()> {
+        Ok(EndianSlice::new(a.get(id).map(|w| w.slice()).unwrap_or(&[]), endian))
+    })
+    .map_err(|_| "load".to_string())?;
+    let mut out = Dwarf::new();
+    let mut b = Sections::new(EndianVec::new(endian));
+    {
+        let mut conv = out.convert(&rd).map_err(|e| format!("convert setup: {e:?}"))?;
+        let mut n = 0;
+        loop {
+            match conv.read_unit() {
+                Ok(Some((mut unit, root))) => {
+                    unit.convert(root, &|x| Some(Address::Constant(x))).map_err(|e| format!("convert unit {n}: {e:?}"))?;
+                    unit.write(&mut b).map_err(|e| format!("write unit {n}: {e:?}"))?;
+                    n += 1;
+                }
+                Ok(None) => break,
+                Err(e) => return Err(format!("convert read_unit {n}: {e:?}")),
+            }
+        }
+    }
+    out.write(&mut b).map_err(|e| format!("write final: {e:?}"))?;
+    Ok(b)
+}
+
 pub fn handle(op: &str, a: &[&str]) -> Option<String> {
     if op != "wunit" {
         return None;
@@ -1342,7 +1371,21 @@ fn handle_inner(a: &[&str]) -> Option<String> {
                 hex(sections.debug_line_str.slice())
             );
             match oracle(&req, &sections, endian, None) {
-                Ok(()) => Some(s),
+                Ok(()) => {
+                    // variant `cv`: the same forest written unit by unit (`ConvertUnit::write`, the only
+                    // public route to an incremental write) must read back as the intended forest too
+                    if req.variant == "cv" {
+                        match incremental(&sections, endian) {
+                            Ok(b) => {
+                                if let Err(why) = oracle(&req, &b, endian, None) {
+                                    return Some(format!("{s} #oracle:incremental-{why}"));
+                                }
+                            }
+                            Err(why) => return Some(format!("{s} #oracle:incremental-{why}")),
+                        }
+                    }
+                    Some(s)
+                }
                 Err(why) => {
                     // two request classes that the writer accepts although it cannot encode them get
                     // their own failure class (signature), whatever the reader then trips over
@@ -1850,6 +1893,63 @@ fn gen_table(rng: &mut Rng, malformed: bool, big: bool) -> String {
     line
 }
 
+/// tables for the incremental-write variant: only content the converter maps one to one (inert
+/// attribute names, no malformed requests, every reference to an attached entry)
+fn gen_table_cv(rng: &mut Rng) -> String {
+    let nu = 1 + rng.below(4) as usize;
+    let e = if rng.chance(1, 2) { "le" } else { "be" };
+    let strs: Vec<Vec<u8>> = (0..3).map(|i| vec![b'a' + i as u8; 1 + rng.below(4) as usize]).collect();
+    let mut line = format!("wunit cv {e} S 4 {} {} {} {} L 1 6c U {nu}", h(&strs[0]), h(&strs[1]), h(&strs[0]), h(&strs[2]));
+    let counts: Vec<usize> = (0..nu).map(|_| 1 + rng.below(8) as usize).collect();
+    for u in 0..nu {
+        let version = 2 + rng.below(4);
+        let fmt = if rng.chance(1, 2) { 32 } else { 64 };
+        let asz = if rng.chance(1, 2) { 4 } else { 8 };
+        let n = counts[u];
+        let mut ops: Vec<String> = Vec::new();
+        let mut parents: Vec<usize> = vec![0];
+        for id in 1..=n {
+            let parent = *rng.pick(&parents);
+            let tag = *rng.pick(TAGS);
+            let mut attrs = String::new();
+            let na = rng.below(5) as usize;
+            for j in 0..na {
+                let name = 0x3fe0 + j;
+                let v = match rng.below(14) {
+                    0 => format!("udata {}", rng.boundary_u64()),
+                    1 => format!("sdata {}", rng.boundary_i64()),
+                    2 => format!("d1 {}", rng.below(256)),
+                    3 => format!("d2 {}", rng.below(65536)),
+                    4 => format!("flag {}", rng.below(2)),
+                    5 => "flagp".into(),
+                    6 => format!("str {}", h(&vec![b'x'; rng.below(5) as usize])),
+                    7 => format!("strp {}", rng.below(4)),
+                    8 => format!("block {}", h(&rand_bytes(rng, 20))),
+                    9 | 10 => format!("uref {}", rng.below(n as u64 + 1)),
+                    11 => {
+                        let u2 = rng.below(nu as u64) as usize;
+                        format!("iref {u2} {}", rng.below(counts[u2] as u64 + 1))
+                    }
+                    12 => format!("addr {}", rng.below(1 << 20)),
+                    _ => {
+                        let u2 = rng.below(nu as u64) as usize;
+                        format!("expr 3 raw {} call {} callref {u2} {}", h(&simple_ops(rng, 2)), rng.below(n as u64 + 1), rng.below(counts[u2] as u64 + 1))
+                    }
+                };
+                attrs += &format!(" {name} {v}");
+            }
+            ops.push(format!("A {id} {parent} {tag} {} {na}{attrs}", rng.below(2)));
+            parents.push(id);
+        }
+        line += &format!(" {version} {fmt} {asz} - R 0 Q 0 {}", ops.len());
+        for o in ops {
+            line += " ";
+            line += &o;
+        }
+    }
+    line
+}
+
 /// every value kind x version x format x address size, followed by a referenced entry: a size
 /// that is off for this kind under this encoding moves the target of the references
 fn gen_sweep(emit: &mut dyn FnMut(String), rng: &mut Rng) {
@@ -1920,13 +2020,16 @@ pub fn gen(ctx: &Ctx, emit: &mut dyn FnMut(String)) {
 fn gen_inner(ctx: &Ctx, emit: &mut dyn FnMut(String)) {
     let mut rng = ctx.rng(11);
     gen_sweep(emit, &mut rng);
-    let n = ctx.n(6000, 120_000);
+    let n = ctx.n(4500, 120_000);
     for i in 0..n {
         let malformed = i % 10 == 9;
         emit(fill_offsets(&gen_table(&mut rng, malformed, false)));
     }
     for _ in 0..ctx.n(6, 60) {
-        emit(gen_table(&mut rng, false, true));
+        emit(fill_offsets(&gen_table(&mut rng, false, true)));
+    }
+    for _ in 0..ctx.n(600, 20_000) {
+        emit(gen_table_cv(&mut rng));
     }
     let _ = Tier::Quick;
 }
